@@ -4,7 +4,9 @@ struct sink_forwarder { void *m_dst; };
 static inline void forwarder_reset(struct sink_forwarder *f, void *dst) { f->m_dst = dst; }
 extern size_t g_unbind_calls; extern ep_t g_unbind_ep; extern void *g_unbind_sock;
 static inline void uctx_unbind_udp_socket(struct io_context *ios, void *sock, ep_t ep) { (void)ios; g_unbind_calls++; g_unbind_ep = ep; g_unbind_sock = sock; }
-#define UREG_GHOST g_unbind_calls, g_unbind_ep, g_unbind_sock
+extern size_t g_urebind_calls; extern ep_t g_urebind_ep; extern void *g_urebind_sock;
+static inline void uctx_rebind_udp_socket(struct io_context *ios, void *sock, ep_t ep) { (void)ios; g_urebind_calls++; g_urebind_ep = ep; g_urebind_sock = sock; }
+#define UREG_GHOST g_unbind_calls, g_unbind_ep, g_unbind_sock, g_urebind_calls, g_urebind_ep, g_urebind_sock
 #define U_BOOLS(self) (BOOL_OK((self)->m_open) && BOOL_OK((self)->m_non_blocking) && BOOL_OK((self)->m_dont_fragment) && BOOL_OK((self)->m_is_v4) && BOOL_OK((self)->m_recv_null_buffers))
 #define U_SLOTS(self) (FN_SLOT_OK((self)->m_send_handler) && FN_SLOT_OK((self)->m_wait_send_handler) && FN_SLOT_OK((self)->m_recv_handler) && FN_SLOT_OK((self)->m_wait_recv_handler))
 /* [C08.account] the byte account of the receive queue equals the payload bytes it holds */
